@@ -61,6 +61,7 @@ func outDir() string {
 	}
 	return verifDir()
 }
+
 const modPath = "github.com/aml-org/amf-custom-validator"
 
 func verifDir() string {
